@@ -34,8 +34,8 @@ def check(ctx):
 
     # ---- C07-a gas: rho * Bg independent of pressure and Z; density is p*M/(Z*R*T)
     fd, fb = P.func(GAS + "density_DAK"), P.func(GAS + "b_factor_DAK")
-    d = only(run(ctx, GAS + "density_DAK", opaque={ZQ}), "density_DAK").value.nf
-    b = only(run(ctx, GAS + "b_factor_DAK", opaque={ZQ}), "b_factor_DAK").value.nf
+    d = only(run(ctx, GAS + "density_DAK", opaque={ZQ}), "density_DAK", ctx, "C07-a").value.nf
+    b = only(run(ctx, GAS + "b_factor_DAK", opaque={ZQ}), "b_factor_DAK", ctx, "C07-a").value.nf
     names = ("temperature", "pressure", "temperature_pseudocritical", "pressure_pseudocritical")
     zd = _expect_args(ctx, "C07-a", GAS + "density_DAK:Z arguments", fd.where(), d, ZQ, names, "density uses the library's Z at its own (T, p, Tpc, ppc)")
     zb = _expect_args(ctx, "C07-a", GAS + "b_factor_DAK:Z arguments", fb.where(), b, ZQ, names, "Bg uses the library's Z at its own (T, p, Tpc, ppc)")
@@ -116,7 +116,7 @@ def check(ctx):
         seen.append(tuple(nf.key(bound[n].nf) if isinstance(bound.get(n), Num) else None for n in names))
         return Num(Z)
 
-    c = only(run(ctx, GAS + "compressibility_DAK", args=args, stubs={ZQ: zstub}), "compressibility_DAK").value.nf
+    c = only(run(ctx, GAS + "compressibility_DAK", args=args, stubs={ZQ: zstub}), "compressibility_DAK", ctx, "C07-d").value.nf
     ctx.check(
         bool(seen) and all(x == want for x in seen), "C07-d", GAS + "compressibility_DAK:Z arguments", fc.where(),
         "compressibility uses the library's Z at its own (T, p, Tpc, ppc)", signature="arguments of z_factor_DAK", calls=len(seen),
@@ -166,7 +166,7 @@ def check(ctx):
     # with Z the library's z-factor at (T, p, Tpc, ppc) and rho = density_DAK's own expression in Z, substituting
     # Z := (value of Z that gives density rho) makes the pressure disappear from the viscosity
     fv = P.func(GAS + "viscosity_Sutton")
-    mu = only(run(ctx, GAS + "viscosity_Sutton", opaque={ZQ}), "viscosity_Sutton").value.nf
+    mu = only(run(ctx, GAS + "viscosity_Sutton", opaque={ZQ}), "viscosity_Sutton", ctx, "C07-e").value.nf
     zv = _expect_args(ctx, "C07-e", GAS + "viscosity_Sutton:Z arguments", fv.where(), mu, ZQ, names, "viscosity is computed from the library's Z at its own (T, p, Tpc, ppc)")
     if zv is not None and zd_gas is not None:
         # density_DAK: d == Kd * p * gamma / (Z * (T + 459.67))  =>  Z == Kd * p * gamma / (rho * (T + 459.67))
@@ -190,4 +190,10 @@ def check(ctx):
     from .c19 import check_delegation
 
     check_delegation(ctx, "C07-g", only={"gas_FVF", "gas_viscosity", "water_FVF", "oil_FVF"})
+
+    # ---- C07-h the array form of the oil FVF is the scalar form per element (density x Bo is claimed at every pressure
+    # of an array as well: element i of the result belongs to element i of the input) - the arm rules of C11
+    from .c11 import check_split
+
+    check_split(ctx, "C07-h", "C07-h", names=["b_o_Standing"])
     ctx.floor("C07", len(ctx.obligs), 11, "consistency obligations")
